@@ -143,6 +143,13 @@ pub enum TypeCheckError {
 // trait wrapper around predicate function
 pub trait Predicate {
     fn check(&self, obj: &Rc<LocatedVal<PDFObjT>>) -> Option<LocatedVal<TypeCheckError>>;
+
+    // Verification-only: the name of the concrete predicate type, and
+    // the list of permitted values when the predicate is a ChoicePred.
+    #[cfg(feature = "verif")]
+    fn verif_name(&self) -> String { String::from(std::any::type_name::<Self>()) }
+    #[cfg(feature = "verif")]
+    fn verif_choices(&self) -> Option<&[PDFObjT]> { None }
 }
 
 // typecheck context containing the named checks
@@ -162,6 +169,14 @@ impl TypeCheckContext {
     }
     pub fn lookup(&self, name: &str) -> Option<Rc<TypeCheckRep>> {
         self.map.get(name).cloned()
+    }
+    // Verification-only: every registered (name, check) pair.
+    #[cfg(feature = "verif")]
+    pub fn verif_entries(&self) -> Vec<(String, Rc<TypeCheckRep>)> {
+        self.map
+            .iter()
+            .map(|(k, v)| (k.clone(), Rc::clone(v)))
+            .collect()
     }
 }
 
@@ -1053,6 +1068,8 @@ impl Predicate for ChoicePred {
             )))
         }
     }
+    #[cfg(feature = "verif")]
+    fn verif_choices(&self) -> Option<&[PDFObjT]> { Some(&self.1) }
 }
 
 #[cfg(test)]
